@@ -12,7 +12,8 @@ def same(a, b):
 VALUES = {'i0': 0, 'i1': 1, 'f0': 0.0, 'f1': 1.0, 'ibig': 2 ** 70,          # 0 / 0.0 / False and 1 / 1.0 / True are equal and hash alike: a cache keyed on the value must not confuse them
           'ineg': -(10 ** 30), 's': 'x', 'sempty': '', 'suni': 'zé中\U0001f600', 'snum': '12', 'strue': 'True',
           'f': 1.5, 'finf': float('inf'), 'fnan': float('nan'), 'fsmall': 5e-324, 'bt': True, 'bf': False,
-          'y': b'abcd', 'yempty': b'', 'ybin': b'\xff\xfe\x00', 'y3': b'abc'}
+          'y': b'abcd', 'yempty': b'', 'ybin': b'\xff\xfe\x00', 'y3': b'abc',
+          'timeout': 50, 'max_retries': '3', 'retry_on_error': 'no'}          # label names the worker itself reads (an int timeout, text for the others): they are still the user's labels
 
 async def delivery(serializer_name, requeues):
     from taskiq import InMemoryBroker, Context, TaskiqDepends, TaskiqMiddleware
@@ -29,6 +30,7 @@ async def delivery(serializer_name, requeues):
     seen = []
     class MW(TaskiqMiddleware):
         def pre_execute(self, message): seen.append(('middleware', dict(message.labels))); return message
+        def post_execute(self, message, result): seen.append(('post_execute middleware', dict(message.labels)))          # also AFTER the task ran (and possibly requeued itself): the current message still carries its labels
     b.add_middlewares(MW())
     stored = []; errors = []
     class RB(type(b.result_backend)):
@@ -38,7 +40,9 @@ async def delivery(serializer_name, requeues):
     b.result_backend = RB()
     async def t(ctx: Context = TaskiqDepends()):
         seen.append(('context', dict(ctx.message.labels)))
-        if len([s for s in seen if s[0] == 'context']) <= requeues: await ctx.requeue()
+        if len([s for s in seen if s[0] == 'context']) <= requeues:
+            try: await ctx.requeue()
+            finally: seen.append(('context after requeue()', dict(ctx.message.labels)))
     task = b.register_task(t, task_name='t', **{k: v for k, v in VALUES.items()})
     await task.kiq()
     r = Receiver(b, run_startup=False, max_async_tasks=3)
